@@ -1,5 +1,5 @@
 (* C05: soundness of the boolean tests of Check/C05.v.
-   [agree] true (on a tie-free case) means the observed behaviour IS the model's; [P_b] true means the
+   [agree] true (on a tie-free case) means the observed behaviour IS the model's; [P_core] true means the
    observed behaviour satisfies the property's clauses as propositions. *)
 From Verif Require Import Lib.Base Model.C05_Proposer Proofs.C05 Check.C05.
 From Coq Require Import ZifyBool ZifyN ZifyNat.
@@ -77,29 +77,43 @@ Qed.
 (* ------------------------------------------------------------------------------------------- *)
 (* agree *)
 
-(* On a case where no two relay goroutines act at one instant, [agree] holds exactly when what the
-   implementation was seen to do -- every request of Prepare, its result, every request of Propose,
-   every relay call with its time and content, the submission and the return time -- is what the
-   model does on the case's input. *)
+(* On a case where nothing is left to Go's scheduler (no answer due at the instant the context ends, no
+   two relay goroutines acting at one instant), [agree] holds exactly when what the implementation was
+   seen to do -- every request of Prepare, its result, the duty handed to Propose, every request of
+   Propose with its instant and whether its context was alive, every relay call with its time and
+   content, the submission and its time, whether it was cut short, the instant Propose returns -- is
+   what the model does on the case's input. *)
+Lemma timed_eqb_spec : forall m c, timed_eqb m c = true <->
+  t_res m = c_obs c /\ t_times m = c_times c /\ t_live m = c_live c /\ t_t0 m = c_t0 c
+  /\ t_ret m = c_ret c /\ t_sub_cut m = c_sub_cut c.
+Proof.
+  intros m c. unfold timed_eqb.
+  rewrite !andb_true_iff, result_eqb_spec, !N.eqb_eq, bool_eqb_spec,
+    (list_eqb_spec N.eqb N_eqb_spec), (list_eqb_spec bool_eqb bool_eqb_spec).
+  tauto.
+Qed.
+
 Lemma agree_sound : forall c,
-  tie_free (e_deadline (c_env c)) (case_plans c) = true ->
+  case_tie_free c = true ->
   (agree c = true <->
-   run (c_cfg c) (c_env c) (c_duty c) (c_prepare c) = ((c_prep_events c, c_prep_ok c), c_obs c)
+   fst (run (c_cfg c) (c_env c) (c_duty c) (c_prepare c)) = (c_prep_events c, c_prep_ok c)
    /\ d_account (duty_after (c_cfg c) (c_env c) (c_duty c) (c_prepare c)) = c_post_account c
-   /\ d_randao (duty_after (c_cfg c) (c_env c) (c_duty c) (c_prepare c)) = c_post_randao c).
+   /\ d_randao (duty_after (c_cfg c) (c_env c) (c_duty c) (c_prepare c)) = c_post_randao c
+   /\ t_res (case_model c) = c_obs c /\ t_times (case_model c) = c_times c /\ t_live (case_model c) = c_live c
+   /\ t_t0 (case_model c) = c_t0 c /\ t_ret (case_model c) = c_ret c /\ t_sub_cut (case_model c) = c_sub_cut c).
 Proof.
   intros c Htie. unfold agree. destruct (run (c_cfg c) (c_env c) (c_duty c) (c_prepare c)) as [[pevs pok] res].
-  rewrite Htie. cbn [negb orb]. rewrite !andb_true_iff, events_eqb_spec, bool_eqb_spec, result_eqb_spec,
+  rewrite Htie. cbn [negb orb fst]. rewrite !andb_true_iff, events_eqb_spec, bool_eqb_spec, timed_eqb_spec,
     (option_eqb_spec N.eqb N_eqb_spec), N.eqb_eq.
   split.
-  - intros ((((-> & ->) & Ha) & Hr) & ->); auto.
-  - intros (H & Ha & Hr); injection H as -> -> ->; auto.
+  - intros ((((-> & ->) & Ha) & Hr) & Ht); auto.
+  - intros (H & Ha & Hr & Ht); injection H as -> ->; auto.
 Qed.
 
 (* ------------------------------------------------------------------------------------------- *)
-(* P_b *)
+(* P_core *)
 
-Lemma P_b_clauses : forall c, P_b c = true ->
+Lemma P_core_clauses : forall c, P_core c = true ->
   o_panic (c_obs c) = false
   /\ forallb (randao_event_ok c) (c_prep_events c) = true
   /\ forallb (block_event_ok c) (o_events (c_obs c)) = true
@@ -108,7 +122,7 @@ Lemma P_b_clauses : forall c, P_b c = true ->
   /\ degrades_ok c = true /\ other_slot_refused c = true /\ unready_silent c = true
   /\ prepared_duty_own c = true.
 Proof.
-  intros c H. unfold P_b in H. rewrite !andb_true_iff in H.
+  intros c H. unfold P_core in H. rewrite !andb_true_iff in H.
   destruct H as (((((((((((H1 & H2) & H3) & H4) & H5) & H6) & H7) & H8) & H9) & H10) & H11) & H12).
   apply negb_true_iff in H1. apply Nat.leb_le in H5. repeat split; auto.
 Qed.
@@ -116,15 +130,15 @@ Qed.
 (* every block signature the implementation was seen to ask is for the duty's slot and validator,
    of the duty's account, in the proposer domain of the slot's epoch, over the roots of the block
    the beacon node returned, which is a block of the duty's slot *)
-Lemma P_b_sound_sign_block : forall c a s p pa st bo dom,
-  P_b c = true -> In (ESignBlock a s p pa st bo dom) (o_events (c_obs c)) ->
+Lemma P_core_sound_sign_block : forall c a s p pa st bo dom,
+  P_core c = true -> In (ESignBlock a s p pa st bo dom) (o_events (c_obs c)) ->
   duty_account c = Some a /\ s = d_slot (c_duty c) /\ p = d_validator (c_duty c)
   /\ dom = (DOMAIN_BEACON_PROPOSER, d_slot (c_duty c) / c_spe (c_cfg c))
   /\ exists pr h, e_proposal (c_env c) = POk pr /\ p_block pr = Some h /\ h_slot h = d_slot (c_duty c)
        /\ pa = h_parent h /\ st = h_state h /\ bo = h_body h.
 Proof.
   intros c a s p pa st bo dom HP Hin.
-  destruct (P_b_clauses c HP) as (_ & _ & Hb & _).
+  destruct (P_core_clauses c HP) as (_ & _ & Hb & _).
   rewrite forallb_forall in Hb. specialize (Hb _ Hin). cbn [block_event_ok] in Hb.
   rewrite !andb_true_iff in Hb. destruct Hb as ((((Ha & Hs) & Hp) & Hd) & Hblk).
   apply (option_eqb_spec N.eqb N_eqb_spec) in Ha. apply N.eqb_eq in Hs, Hp. apply npair_eqb_spec in Hd.
@@ -137,13 +151,13 @@ Qed.
 (* every RANDAO signature the implementation was seen to ask (in Prepare) is of the account the
    accounts provider holds for the duty's validator, over the epoch of the duty's slot, in the RANDAO
    domain of that epoch *)
-Lemma P_b_sound_sign_randao : forall c a ep dom,
-  P_b c = true -> In (ESignRandao a ep dom) (c_prep_events c) ->
+Lemma P_core_sound_sign_randao : forall c a ep dom,
+  P_core c = true -> In (ESignRandao a ep dom) (c_prep_events c) ->
   provided_account c = Some a /\ ep = d_slot (c_duty c) / c_spe (c_cfg c)
   /\ dom = (DOMAIN_RANDAO, d_slot (c_duty c) / c_spe (c_cfg c)).
 Proof.
   intros c a ep dom HP Hin.
-  destruct (P_b_clauses c HP) as (_ & Hr & _).
+  destruct (P_core_clauses c HP) as (_ & Hr & _).
   rewrite forallb_forall in Hr. specialize (Hr _ Hin). cbn [randao_event_ok] in Hr.
   rewrite !andb_true_iff in Hr. destruct Hr as ((Ha & He) & Hd).
   apply (option_eqb_spec N.eqb N_eqb_spec) in Ha. apply N.eqb_eq in He. apply npair_eqb_spec in Hd.
@@ -151,20 +165,20 @@ Proof.
 Qed.
 
 (* Propose was never seen to ask for a RANDAO signature, nor Prepare for a block signature *)
-Lemma P_b_sound_no_cross_signing : forall c,
-  P_b c = true ->
+Lemma P_core_sound_no_cross_signing : forall c,
+  P_core c = true ->
   (forall a ep dom, ~ In (ESignRandao a ep dom) (o_events (c_obs c)))
   /\ (forall a s p pa st bo dom, ~ In (ESignBlock a s p pa st bo dom) (c_prep_events c)).
 Proof.
-  intros c HP. destruct (P_b_clauses c HP) as (_ & Hr & Hb & _). rewrite forallb_forall in Hr, Hb. split.
+  intros c HP. destruct (P_core_clauses c HP) as (_ & Hr & Hb & _). rewrite forallb_forall in Hr, Hb. split.
   - intros a ep dom Hin. specialize (Hb _ Hin). discriminate.
   - intros a s p pa st bo dom Hin. specialize (Hr _ Hin). discriminate.
 Qed.
 
 (* what was seen submitted for a block that is not blinded is exactly the obtained block with the
    signature the account returned, and no relay was asked *)
-Lemma P_b_sound_submit_local : forall c t sp,
-  P_b c = true -> proposal_blinded c = false -> o_submit (c_obs c) = Some (t, sp) ->
+Lemma P_core_sound_submit_local : forall c t sp,
+  P_core c = true -> proposal_blinded c = false -> o_submit (c_obs c) = Some (t, sp) ->
   exists pr h sig code,
     e_proposal (c_env c) = POk pr /\ p_block pr = Some h /\ e_sig_block (c_env c) = Some sig
     /\ signed_container (p_version pr) (p_blinded pr) = Some code
@@ -172,7 +186,7 @@ Lemma P_b_sound_submit_local : forall c t sp,
     /\ concat (o_unblind (c_obs c)) = [].
 Proof.
   intros c t sp HP Hbl Hs.
-  destruct (P_b_clauses c HP) as (_ & _ & _ & _ & _ & Hsub & _).
+  destruct (P_core_clauses c HP) as (_ & _ & _ & _ & _ & Hsub & _).
   unfold submit_ok in Hsub. rewrite Hs, Hbl in Hsub. rewrite andb_true_iff in Hsub. destruct Hsub as (_ & Hsub).
   unfold expected_signed in Hsub.
   destruct (e_proposal (c_env c)) as [|pr] eqn:E1; [discriminate|].
@@ -187,15 +201,15 @@ Qed.
 (* what was seen submitted for a blinded block is one full block, in the container of the version,
    not flagged blinded, that a relay's scripted answer to a call actually observed carried, no later
    than the submission; and every observed relay request made up to then is the signed blinded block *)
-Lemma P_b_sound_submit_blinded : forall c t sp,
-  P_b c = true -> proposal_blinded c = true -> o_submit (c_obs c) = Some (t, sp) ->
+Lemma P_core_sound_submit_blinded : forall c t sp,
+  P_core c = true -> proposal_blinded c = true -> o_submit (c_obs c) = Some (t, sp) ->
   exists signed fc b,
     expected_signed c = Some signed /\ full_container (sp_version signed) = Some fc
     /\ sp = {| sp_version := sp_version signed; sp_blinded := false; sp_conts := [(fc, b)] |}
     /\ delivered_by c t b = true.
 Proof.
   intros c t sp HP Hbl Hs.
-  destruct (P_b_clauses c HP) as (_ & _ & _ & _ & _ & Hsub & _).
+  destruct (P_core_clauses c HP) as (_ & _ & _ & _ & _ & Hsub & _).
   unfold submit_ok in Hsub. rewrite Hs, Hbl in Hsub. rewrite andb_true_iff in Hsub. destruct Hsub as (_ & Hsub).
   destruct (expected_signed c) as [signed|]; [|discriminate].
   rewrite !andb_true_iff in Hsub. destruct Hsub as ((Hv & Hnb) & Hc).
@@ -209,43 +223,44 @@ Qed.
 
 (* nothing was seen submitted for a blinded block unless some observed relay call was scripted to
    answer with a full block *)
-Lemma P_b_sound_no_relay_no_submit : forall c,
-  P_b c = true -> proposal_blinded c = true -> some_call_answered c = false -> o_submit (c_obs c) = None.
+Lemma P_core_sound_no_relay_no_submit : forall c,
+  P_core c = true -> proposal_blinded c = true -> some_call_answered c = false -> o_submit (c_obs c) = None.
 Proof.
   intros c HP Hbl Hno.
-  destruct (P_b_clauses c HP) as (_ & _ & _ & _ & _ & _ & Hn & _).
+  destruct (P_core_clauses c HP) as (_ & _ & _ & _ & _ & _ & Hn & _).
   unfold no_relay_no_submit_b in Hn. rewrite Hbl, Hno in Hn. cbn in Hn.
   destruct (o_submit (c_obs c)); [discriminate|reflexivity].
 Qed.
 
 (* a duty whose Prepare was seen to succeed was handed to Propose with the account the provider
    holds for its own validator and the reveal that account gave for it *)
-Lemma P_b_sound_prepared_duty_own : forall c,
-  P_b c = true -> c_prepare c = true -> c_prep_ok c = true ->
+Lemma P_core_sound_prepared_duty_own : forall c,
+  P_core c = true -> c_prepare c = true -> c_prep_ok c = true ->
   exists a, c_post_account c = Some a /\ provided_account c = Some a
             /\ e_sig_randao (c_env c) = Some (c_post_randao c).
 Proof.
-  intros c HP Hp Hok. destruct (P_b_clauses c HP) as (_ & _ & _ & _ & _ & _ & _ & _ & _ & _ & H).
+  intros c HP Hp Hok. destruct (P_core_clauses c HP) as (_ & _ & _ & _ & _ & _ & _ & _ & _ & _ & H).
   unfold prepared_duty_own in H. rewrite Hp, Hok in H. cbn [andb negb orb] in H.
   rewrite !andb_true_iff in H. destruct H as ((Hs & Ha) & Hr).
   apply (option_eqb_spec N.eqb N_eqb_spec) in Ha, Hr.
   destruct (c_post_account c) as [a|]; [|discriminate]. exists a. auto.
 Qed.
 
-Lemma P_b_sound_no_panic : forall c, P_b c = true -> o_panic (c_obs c) = false.
-Proof. intros c HP; apply (P_b_clauses c HP). Qed.
+Lemma P_core_sound_no_panic : forall c, P_core c = true -> o_panic (c_obs c) = false.
+Proof. intros c HP; apply (P_core_clauses c HP). Qed.
 
 (* ------------------------------------------------------------------------------------------- *)
-(* The model satisfies P_b on every input: the boolean property evaluated on the model's own
-   output is true for ALL configurations, environments, duties (no hypothesis at all).  So P_b can
+(* The model satisfies P_core on every input: the boolean property evaluated on the model's own
+   output is true for ALL configurations, environments, duties (no hypothesis at all).  So P_core can
    only be false on a case where the implementation differs from the model, and the theorems of the
    model include the property as the check evaluates it. *)
 
 Definition model_case (id : N) (cf : config) (e : env) (d : duty) (prep : bool) : case :=
-  {| c_id := id; c_cfg := cf; c_env := e; c_duty := d; c_prepare := prep;
+  {| c_id := id; c_cfg := cf; c_env := e; c_lat := zero_lats; c_duty := d; c_prepare := prep;
      c_prep_events := fst (fst (run cf e d prep)); c_prep_ok := snd (fst (run cf e d prep));
      c_post_account := d_account (duty_after cf e d prep); c_post_randao := d_randao (duty_after cf e d prep);
-     c_obs := snd (run cf e d prep) |}.
+     c_cut := no_cuts; c_times := []; c_live := []; c_t0 := 0;
+     c_obs := snd (run cf e d prep); c_ret := 0; c_sub_cut := false |}.
 
 Lemma indexed_in : forall A (l : list A) i0 i x, In (i, x) (indexed i0 l) -> exists j, i = (i0 + j)%nat /\ nth_error l j = Some x.
 Proof.
@@ -619,9 +634,9 @@ Proof.
   cbn. rewrite !N.eqb_refl. reflexivity.
 Qed.
 
-Theorem model_satisfies_P_b : forall id cf e d prep, P_b (model_case id cf e d prep) = true.
+Theorem model_satisfies_P_core : forall id cf e d prep, P_core (model_case id cf e d prep) = true.
 Proof.
-  intros id cf e d prep. unfold P_b. rewrite (clause_prepared_own id cf e d prep).
+  intros id cf e d prep. unfold P_core. rewrite (clause_prepared_own id cf e d prep).
   destruct (clause_prep_events id cf e d prep) as (H2 & H3).
   destruct (clause_block_events id cf e d prep) as (H4 & H5).
   destruct (clause_submit id cf e d prep) as (H7 & H8).
@@ -631,4 +646,222 @@ Proof.
   assert (Hp : o_panic (c_obs (model_case id cf e d prep)) = false).
   { unfold model_case; cbn [c_obs]. destruct (run_parts cf e d prep) as (_ & _ & ->). apply propose_no_panic. }
   rewrite Hp. reflexivity.
+Qed.
+
+(* ------------------------------------------------------------------------------------------- *)
+(* Time: the model's case under latencies, and P_b (with its clauses on time) of it. *)
+
+(* Prepare does not look at what time touches *)
+Lemma prepare_apply_cuts : forall cf e x dl d, prepare cf (apply_cuts e x dl) d = prepare cf e d.
+Proof. reflexivity. Qed.
+
+(* the requests up to the signature do not depend on the time left for the relays *)
+Lemma sign_phase_deadline : forall cf e x d1 d2 d,
+  sign_phase cf (apply_cuts e x d1) d = sign_phase cf (apply_cuts e x d2) d.
+Proof. reflexivity. Qed.
+
+Lemma run_apply_cuts : forall cf e x dl d prep,
+  fst (run cf (apply_cuts e x dl) d prep) = fst (run cf e d prep)
+  /\ duty_after cf (apply_cuts e x dl) d prep = duty_after cf e d prep
+  /\ snd (run cf (apply_cuts e x dl) d prep) = propose cf (apply_cuts e x dl) (duty_after cf e d prep).
+Proof.
+  intros cf e x dl d prep. unfold run, duty_after. destruct prep; [|auto].
+  rewrite prepare_apply_cuts. destruct (prepare cf e d) as [[d1 evs] ok]. auto.
+Qed.
+
+(* the answers as the model has them given *)
+Definition env_t (cf : config) (e : env) (l : lats) (D : duty) : env :=
+  apply_cuts e (cuts_of e l) (e_deadline e - t_t0 (propose_t cf e l D)).
+
+Definition model_case_t (id : N) (cf : config) (e : env) (l : lats) (d : duty) (prep : bool) : case :=
+  let D := duty_after cf e d prep in
+  let m := propose_t cf e l D in
+  {| c_id := id; c_cfg := cf; c_env := e; c_lat := l; c_duty := d; c_prepare := prep;
+     c_prep_events := fst (fst (run cf e d prep)); c_prep_ok := snd (fst (run cf e d prep));
+     c_post_account := d_account D; c_post_randao := d_randao D;
+     c_cut := t_cuts m; c_times := t_times m; c_live := t_live m; c_t0 := t_t0 m;
+     c_obs := t_res m; c_ret := t_ret m; c_sub_cut := t_sub_cut m |}.
+
+Lemma propose_t_parts : forall cf e l D,
+  let m := propose_t cf e l D in
+  t_cuts m = cuts_of e l
+  /\ t_res m = propose cf (env_t cf e l D) D
+  /\ (t_times m, t_t0 m) = stamps (e_deadline e) l 0 (o_events (t_res m))
+  /\ t_live m = map (fun t => t <? e_deadline e) (t_times m)
+  /\ t_ret m = match o_submit (t_res m) with
+               | Some (s, _) => adv (e_deadline e) (s + t_t0 m) (l_submit l)
+               | None => o_ret (t_res m) + t_t0 m end
+  /\ t_sub_cut m = match o_submit (t_res m) with
+                   | Some (s, _) => negb (in_time (e_deadline e) (s + t_t0 m) (l_submit l))
+                   | None => false end.
+Proof.
+  intros cf e l D m. unfold m, env_t, propose_t.
+  destruct (stamps (e_deadline e) l 0 (fst (sign_phase cf (apply_cuts e (cuts_of e l) (e_deadline e)) D))) as [ts t0] eqn:Hst.
+  cbn [t_cuts t_res t_times t_t0 t_live t_ret t_sub_cut].
+  repeat split.
+  rewrite propose_events, (sign_phase_deadline cf e (cuts_of e l) (e_deadline e - t0) (e_deadline e)), Hst. reflexivity.
+Qed.
+
+Lemma actual_model_case_t : forall id cf e l d prep,
+  actual (model_case_t id cf e l d prep)
+  = model_case id cf (env_t cf e l (duty_after cf e d prep)) d prep.
+Proof.
+  intros id cf e l d prep. unfold actual, model_case_t, model_case.
+  cbn [c_id c_cfg c_env c_lat c_duty c_prepare c_prep_events c_prep_ok c_post_account c_post_randao c_cut c_times c_live c_t0 c_obs c_ret c_sub_cut].
+  set (D := duty_after cf e d prep).
+  destruct (propose_t_parts cf e l D) as (Hx & Hr & _). rewrite Hx, Hr.
+  fold (env_t cf e l D).
+  destruct (run_apply_cuts cf e (cuts_of e l) (e_deadline e - t_t0 (propose_t cf e l D)) d prep) as (H1 & H2 & H3).
+  fold (env_t cf e l D) in H1, H2, H3. fold D in H2, H3.
+  rewrite H1, H2, H3. reflexivity.
+Qed.
+
+Lemma live_ok_map : forall D ts, live_ok D ts (map (fun t => t <? D) ts) = true.
+Proof.
+  intros D ts; induction ts as [|t ts IH]; cbn; [reflexivity|].
+  rewrite IH. destruct (t <? D); reflexivity.
+Qed.
+
+Lemma stamps_length : forall D l evs t, length (fst (stamps D l t evs)) = length evs.
+Proof.
+  intros D l evs; induction evs as [|ev evs IH]; intro t; cbn; [reflexivity|].
+  specialize (IH (adv D t (ev_lat l ev))). destruct (stamps D l (adv D t (ev_lat l ev)) evs) as [ts tend].
+  cbn in *. rewrite IH. reflexivity.
+Qed.
+
+Lemma adv_le : forall D t L, t <= adv D t L /\ adv D t L <= t + L.
+Proof. intros D t L; unfold adv. destruct (t <? D) eqn:E; lia. Qed.
+
+(* the whole scripted time line fits: no answer is cut *)
+Lemma budget_no_cuts : forall e l, budget e l < e_deadline e -> cuts_of e l = no_cuts.
+Proof.
+  intros e l H. unfold budget in H. unfold cuts_of, no_cuts, in_time.
+  set (D := e_deadline e) in *. set (g := graffiti_lat e l) in *. set (a := auction_lat e l) in *.
+  pose proof (adv_le D 0 g) as (_ & H1).
+  pose proof (adv_le D (adv D 0 g) a) as (_ & H2).
+  pose proof (adv_le D (adv D (adv D 0 g) a) (l_proposal l)) as (_ & H3).
+  pose proof (adv_le D (adv D (adv D (adv D 0 g) a) (l_proposal l)) (l_domain l)) as (_ & H4).
+  f_equal; apply negb_false_iff, N.ltb_lt; lia.
+Qed.
+
+Theorem model_satisfies_P_b : forall id cf e l d prep, P_b (model_case_t id cf e l d prep) = true.
+Proof.
+  intros id cf e l d prep. unfold P_b.
+  rewrite actual_model_case_t, model_satisfies_P_core. cbn [andb].
+  set (D := duty_after cf e d prep).
+  destruct (propose_t_parts cf e l D) as (Hx & Hr & Hst & Hlive & Hret & Hcut).
+  unfold model_case_t; cbn [c_env c_lat c_times c_live c_obs c_cut c_t0 c_sub_cut]. fold D.
+  repeat (apply andb_true_iff; split).
+  - rewrite Hlive. apply live_ok_map.
+  - apply Nat.eqb_eq. pose proof (stamps_length (e_deadline e) l (o_events (t_res (propose_t cf e l D))) 0) as Hl.
+    rewrite <- Hst in Hl. exact Hl.
+  - unfold in_budget_not_cut; cbn [c_env c_lat c_cut]. fold D.
+    destruct (budget e l <? e_deadline e) eqn:Hb; [|reflexivity]. cbn [negb orb].
+    apply N.ltb_lt in Hb. rewrite Hx, (budget_no_cuts e l Hb). reflexivity.
+  - unfold submit_not_cut; cbn [c_env c_lat c_obs c_t0 c_sub_cut]. fold D. rewrite Hcut.
+    destruct (o_submit (t_res (propose_t cf e l D))) as [[s sp]|]; [|reflexivity].
+    unfold in_time. destruct (s + t_t0 (propose_t cf e l D) + l_submit l <? e_deadline e); reflexivity.
+Qed.
+
+(* what P_b says of a case is said of the answers the providers were seen to give *)
+Lemma P_b_core : forall c, P_b c = true -> P_core (actual c) = true.
+Proof. intros c H. unfold P_b in H. rewrite !andb_true_iff in H. tauto. Qed.
+
+(* an answer seen cut is the context's error; every other answer is the scripted one *)
+Lemma actual_answers : forall c,
+  let e := c_env c in let a := c_env (actual c) in
+  (forall p, e_proposal a = POk p -> e_proposal e = POk p)
+  /\ (forall s, e_sig_block a = Some s -> e_sig_block e = Some s)
+  /\ (e_dom_block a = true -> e_dom_block e = true)
+  /\ (forall w al, e_auction a = AOk w al -> e_auction e = AOk w al)
+  /\ (forall g, e_graffiti a = GOk g -> e_graffiti e = GOk g)
+  /\ e_accounts a = e_accounts e /\ e_sig_randao a = e_sig_randao e /\ e_relays a = e_relays e.
+Proof.
+  intros c e a. unfold a, e, actual; cbn [c_env apply_cuts e_proposal e_sig_block e_dom_block e_auction e_graffiti e_accounts e_sig_randao e_relays].
+  repeat split.
+  - intros p. destruct (x_proposal (c_cut c)); [discriminate|auto].
+  - intros s. destruct (x_sign (c_cut c)); [discriminate|auto].
+  - intro H. apply andb_true_iff in H. tauto.
+  - intros w al. destruct (e_auction (c_env c)); try discriminate; destruct (x_auction (c_cut c)); try discriminate; auto.
+  - intros g. destruct (e_graffiti (c_env c)); try discriminate; destruct (x_graffiti (c_cut c)); try discriminate; auto.
+Qed.
+
+(* time, on the observed behaviour *)
+Lemma live_ok_nth : forall D ts lv k t, live_ok D ts lv = true -> nth_error ts k = Some t -> t < D ->
+  nth_error lv k = Some true.
+Proof.
+  intros D ts; induction ts as [|t0 ts IH]; intros lv k t H Hn Hlt; [destruct k; discriminate|].
+  destruct lv as [|b lv]; [discriminate|]. cbn in H. apply andb_true_iff in H as (Hb & H).
+  destruct k as [|k]; cbn in *.
+  - injection Hn as ->. apply N.ltb_lt in Hlt. rewrite Hlt in Hb. cbn in Hb. subst b. reflexivity.
+  - eapply IH; eauto.
+Qed.
+
+Lemma P_b_sound_time : forall c,
+  P_b c = true ->
+  (* every request made before the deadline came with a live context *)
+  (forall k t, nth_error (c_times c) k = Some t -> t < e_deadline (c_env c) -> nth_error (c_live c) k = Some true)
+  (* in budget: the beacon node, the domain provider and the account were left their time *)
+  /\ (budget (c_env c) (c_lat c) < e_deadline (c_env c) ->
+      x_proposal (c_cut c) = false /\ x_domain (c_cut c) = false /\ x_sign (c_cut c) = false)
+  (* and so was the submitter *)
+  /\ (forall s sp, o_submit (c_obs c) = Some (s, sp) -> s + c_t0 c + l_submit (c_lat c) < e_deadline (c_env c) ->
+      c_sub_cut c = false).
+Proof.
+  intros c H. unfold P_b in H. rewrite !andb_true_iff in H. destruct H as ((((_ & Hl) & _) & Hb) & Hs).
+  split; [|split].
+  - intros k t Hn Hlt. eapply live_ok_nth; eauto.
+  - intro Hlt. unfold in_budget_not_cut in Hb. apply N.ltb_lt in Hlt. rewrite Hlt in Hb. cbn in Hb.
+    apply negb_true_iff in Hb. rewrite !orb_false_iff in Hb. tauto.
+  - intros s sp Hsub Hlt. unfold submit_not_cut in Hs. rewrite Hsub in Hs. apply N.ltb_lt in Hlt. rewrite Hlt in Hs.
+    cbn in Hs. rewrite orb_false_r in Hs. apply negb_true_iff in Hs. exact Hs.
+Qed.
+
+(* ------------------------------------------------------------------------------------------- *)
+(* Slow steps degrade, they do not skip: over every environment and all latencies *)
+
+Lemma apply_no_cuts : forall e dl,
+  let a := apply_cuts e no_cuts dl in
+  e_graffiti a = e_graffiti e /\ e_auction a = e_auction e /\ e_proposal a = e_proposal e
+  /\ e_dom_block a = e_dom_block e /\ e_sig_block a = e_sig_block e.
+Proof.
+  intros e dl; cbn. repeat split.
+  - destruct (e_graffiti e); reflexivity.
+  - destruct (e_auction e); reflexivity.
+  - apply andb_true_r.
+Qed.
+
+(* a cut graffiti answer is zero graffiti, a cut auction is no auction results; whatever is cut, the
+   beacon node is asked; and when the scripted time line up to the signature fits into the context,
+   nothing is cut and a good local block is signed and submitted as soon as the signature is there,
+   whatever the graffiti provider and the auctioneer answered and however long they took *)
+Lemma slow_steps_degrade : forall c e l d acct,
+  d_randao d <> 0 -> d_account d = Some acct ->
+  let m := propose_t c e l d in
+  (exists g, In (EProposal (d_slot d) (d_randao d) g (c_boost c)) (o_events (t_res m))
+             /\ (g = graffiti_value e \/ (x_graffiti (t_cuts m) = true /\ g = 0)))
+  /\ (budget e l < e_deadline e ->
+      t_cuts m = no_cuts
+      /\ In (EProposal (d_slot d) (d_randao d) (graffiti_value e) (c_boost c)) (o_events (t_res m))
+      /\ forall pr h sig, signable e d pr h -> p_blinded pr = false -> e_dom_block e = true -> e_sig_block e = Some sig ->
+           exists code, signed_container (p_version pr) false = Some code
+                        /\ o_submit (t_res m) = Some (0, signed_proposal pr h sig code)).
+Proof.
+  intros c e l d acct Hr Ha m.
+  destruct (propose_t_parts c e l d) as (Hx & Hres & _). fold m in Hx, Hres.
+  split.
+  - destruct (degrades_not_skips c (env_t c e l d) d acct Hr Ha) as (Hin & _).
+    rewrite <- Hres in Hin. eexists; split; [exact Hin|].
+    rewrite Hx. unfold env_t, graffiti_value; cbn [apply_cuts e_graffiti].
+    destruct (x_graffiti (cuts_of e l)) eqn:Hxg; destruct (e_graffiti e) as [| |g]; auto.
+  - intro Hb. pose proof (budget_no_cuts e l Hb) as Hnc.
+    assert (Henv : env_t c e l d = apply_cuts e no_cuts (e_deadline e - t_t0 m)) by (unfold env_t; rewrite Hnc; reflexivity).
+    destruct (apply_no_cuts e (e_deadline e - t_t0 m)) as (Hg & Hau & Hp & Hdb & Hsb).
+    rewrite <- Henv in Hg, Hau, Hp, Hdb, Hsb.
+    destruct (degrades_not_skips c (env_t c e l d) d acct Hr Ha) as (Hin & _ & Hlocal & _).
+    rewrite <- Hres in Hin, Hlocal.
+    split; [rewrite Hx; exact Hnc|]. split.
+    + unfold graffiti_value in *. rewrite Hg in Hin. exact Hin.
+    + intros pr h sig (Hs1 & Hs2) Hbl Hd Hs. apply (Hlocal pr h sig); try assumption; try congruence.
+      split; [congruence|exact Hs2].
 Qed.
